@@ -178,3 +178,5 @@ class MDAGaussSeidel(BaseMDASolver):
                 self.get_current_resolved_residual_vector(),
             )
             self._update_local_data_from_array(updated_couplings)
+
+        self._execute_weakly_coupled_disciplines()
